@@ -239,6 +239,10 @@ func c13Packed(c *Ctx) {
 			for j := range p {
 				p[j] = byte(r.IntN(256))
 			}
+			if i%3 == 0 { // packed runs: poly-A is 0x00, poly-T 0xFF, ACGT repeated 0x1B …
+				p = runSeq(r, []byte{0x00, byte(r.IntN(256)), 0x1b, byte(r.IntN(256)), 0xff}, pick(r, []int{r.IntN(200), r.IntN(200), 1000, 5000}))
+				k.Count("run_structured_packed", 1)
+			}
 			check(k, p)
 			// with a dst prefix
 			pre := []byte("pre")
@@ -261,7 +265,7 @@ func c13Random(c *Ctx) {
 			if r.IntN(10) == 0 {
 				l = r.IntN(10001)
 			}
-			s := randSeq(r, []byte(dna8), l)
+			s := seqOrRuns(r, []byte(dna8), l)
 			k.Input("seq", s)
 			// several strings packed from adjacent windows of one buffer, dst right behind src
 			{
@@ -473,8 +477,8 @@ func c14Codons(c *Ctx) {
 	for i := 0; i < n; i++ {
 		c.Case(int64(1+i), func(k *K) {
 			r := k.Rand()
-			x := randSeq(r, []byte(dna8), 3*r.IntN(40))
-			y := randSeq(r, []byte(dna8), 3*r.IntN(40))
+			x := seqOrRuns(r, []byte(dna8), 3*r.IntN(40))
+			y := seqOrRuns(r, []byte(dna8), 3*pick(r, []int{r.IntN(40), r.IntN(40), 400, 1400}))
 			k.Input("x", x)
 			k.Input("y", y)
 			for _, p := range dstPrefixes {
@@ -592,7 +596,7 @@ func c14Frames(c *Ctx) {
 	for j := 0; j < m; j++ {
 		c.Case(idx, func(k *K) {
 			r := k.Rand()
-			s := randSeq(r, []byte(dna8), r.IntN(5001))
+			s := seqOrRuns(r, []byte(dna8), r.IntN(5001))
 			k.Input("seq", s)
 			{
 				ar := newArena(r, s, randSeq(r, []byte(dna8), 6))
